@@ -95,15 +95,28 @@ pub fn run(ctx: &Ctx) -> Outcome {
                     // third, differently keyed instance: one op between every step; its solo transcript
                     let third_ops: Vec<usize> = (0..h2.len() + h3.len() + 1).map(|i| i % n_ops).collect();
                     let exp_third = solo(cfg, &w, &keys[1], &iv3, &data, &third_ops);
-                    for sh in shuffles(h2.len(), h3.len()) {
+                    // how the second handle is made: 0 = clone(); 1 = clone_from() into a fresh instance built under ANOTHER
+                    // key and IV; 2 = clone_from() into such an instance after it has been used.  The clone_from forms are run
+                    // for the sequential interleaving only.
+                    for (si, sh) in shuffles(h2.len(), h3.len()).into_iter().enumerate() {
+                      for how in 0..(if si == 0 && w.clonable() { 3 } else { 1 }) {
                         rep.case(|| {
                             let mut orig = w.make(cfg, &keys[0], &iv);
                             for &op in h1 {
                                 orig.op(cfg, op, &data);
                             }
                             // the second handle: a clone where the type is Clone, else a second fresh instance brought to the same state
-                            let mut second = match orig.dup() {
+                            let mut second = match if how == 0 { orig.dup() } else { None } {
                                 Some(c) => c,
+                                None if how > 0 => {
+                                    let mut s = w.make(cfg, &keys[1], &iv3);
+                                    if how == 2 {
+                                        s.op(cfg, 0, &data);
+                                        s.op(cfg, 1 % n_ops, &data);
+                                    }
+                                    ensure!(s.clone_from(&orig), "MACHINERY", "harness: clone_from on a Clone type");
+                                    s
+                                }
                                 None => {
                                     let mut s = w.make(cfg, &keys[0], &iv);
                                     for &op in h1 {
@@ -125,7 +138,7 @@ pub fn run(ctx: &Ctx) -> Outcome {
                                     i2 += 1;
                                 } else {
                                     let obs = second.op(cfg, h3[i3], &data);
-                                    ensure!(obs == exp3[h1.len() + i3], format!("clone_diverges/{label}"), "{}: after history {:?} and clone, with the original doing {:?} in interleaving {:?}: the clone's step {} ({}) observed {} but a fresh instance replaying {:?} observes {}", w.ty(), h1, h2, sh, i3, w.op_name(cfg, h3[i3]), short(&obs), full3, short(&exp3[h1.len() + i3]));
+                                    ensure!(obs == exp3[h1.len() + i3], format!("{}/{label}", if how == 0 { "clone_diverges" } else { "clone_from_diverges" }), "{}: after history {:?} and clone, with the original doing {:?} in interleaving {:?}: the clone's step {} ({}) observed {} but a fresh instance replaying {:?} observes {}", w.ty(), h1, h2, sh, i3, w.op_name(cfg, h3[i3]), short(&obs), full3, short(&exp3[h1.len() + i3]));
                                     i3 += 1;
                                 }
                             }
@@ -135,6 +148,7 @@ pub fn run(ctx: &Ctx) -> Outcome {
                             ensure!(obs == *exp2.last().unwrap(), format!("original_affected_by_drop/{label}"), "{}: after the clone was dropped the original observed {} but a fresh instance replaying {:?} observes {}", w.ty(), short(&obs), full2, short(exp2.last().unwrap()));
                             Ok(())
                         });
+                      }
                     }
                 }
             }
@@ -195,7 +209,7 @@ pub fn run(ctx: &Ctx) -> Outcome {
     hits.sort();
     o.notes.push(format!("source scan for hidden shared state (static / thread_local / Cell / Atomic / unsafe / OnceLock / Mutex) in the nine src trees: {}", if hits.is_empty() { "none found".to_string() } else { hits.join(" | ") }));
     o.counters.insert("shared_state_constructs_in_sources".into(), hits.len() as u64);
-    o.rule = "stateless exhaustive over interleavings: for every object kind (12 block-mode types, keystream cores, byte-level aliases, buffered CFB) x configuration: every history h1 (<= 2/3 ops) on an instance; clone (for non-Clone BelT types: a second fresh instance brought to the same state); every pair of histories h2 (original), h3 (clone) of <= 2 ops and EVERY interleaving of them, with a third differently keyed instance taking one step between any two; oracle: each handle's observations equal those of a fresh instance replaying h1;h2 resp. h1;h3 alone, the third instance equals its solo run, the same history on two fresh instances is identical, and dropping the clone leaves the original intact; CTS types: clone-then-use equals use".into();
+    o.rule = "stateless exhaustive over interleavings: for every object kind (12 block-mode types, keystream cores, byte-level aliases, buffered CFB) x configuration: every history h1 (<= 2/3 ops) on an instance; clone — by clone(), and for the sequential interleaving also by clone_from() into a fresh and into a used instance built under another key and IV — (for non-Clone BelT types: a second fresh instance brought to the same state); every pair of histories h2 (original), h3 (clone) of <= 2 ops and EVERY interleaving of them, with a third differently keyed instance taking one step between any two; oracle: each handle's observations equal those of a fresh instance replaying h1;h2 resp. h1;h3 alone, the third instance equals its solo run, the same history on two fresh instances is identical, and dropping the clone leaves the original intact; CTS types: clone-then-use equals use".into();
     o.configs = cfgs.iter().map(|c| c.name.clone()).collect();
     o.bounds = vec![("h1_max_ops".into(), J::Int(tier.pick(2, 3))), ("h2_h3_max_ops".into(), J::Int(2)), ("ops_per_kind".into(), J::Str("2..4 (data call small, data call > one batch, observation, reposition)".into()))];
     o.assumptions = vec!["hidden state written and read within one call is invisible at call granularity; the evidence lists every static / thread_local / Cell / atomic / unsafe construct found in the nine src trees so the assumption is visible if it stops holding".into()];
